@@ -422,6 +422,24 @@ fn pause_mismatch(p: &Pause, dbg: &Dbg, load_mem: &[u16; 0x10000]) -> Option<(St
     None
 }
 
+/// The reference adopts the real pause: registers, memory, breakpoints, the breakpoint paused
+/// on, and the saved initial state.
+fn resync(dbg: &mut Dbg, p: &Pause, load_mem: &[u16; 0x10000]) {
+    let adopt = |vm: &mut crate::model::vm::Vm, regs: &lace::verif::Regs, diff: &[(u16, u16)]| {
+        vm.reg = regs.reg;
+        vm.pc = regs.pc;
+        vm.cc = regs.cc;
+        vm.mem.copy_from_slice(&load_mem[..]);
+        for (addr, value) in diff {
+            vm.mem[*addr as usize] = *value;
+        }
+    };
+    adopt(&mut dbg.vm, &p.regs, &p.mem_diff);
+    adopt(&mut dbg.initial, &p.init_regs, &p.init_mem_diff);
+    dbg.bps = p.breakpoints.iter().map(|b| b.0).collect();
+    dbg.paused_on_bp = p.current_breakpoint.filter(|a| *a == p.regs.pc);
+}
+
 fn bp_mismatch(p: &Pause, dbg: &Dbg) -> Option<(String, String)> {
     let real: Vec<u16> = p.breakpoints.iter().map(|b| b.0).collect();
     let mut sorted = real.clone();
@@ -794,6 +812,10 @@ pub fn check_session(cap: &Capture, scn: &DebugScenario, report: &mut Report) ->
     let mut halt_executed_attached = false;
     let mut tail_input_active = false;
     let first_exec_total = real.execs;
+    // After a divergence the reference adopts the real pause (everything the debugger and the
+    // machine hold is in the snapshot) and the comparison goes on, so that every later command
+    // is still judged - by the property that owns it - from the state it really started in
+    let mut resyncs = 0u32;
 
     let push = |out: &mut SessionCheck, prop: &str, key: String, detail: String| {
         out.violations.push(Violation::new(prop, key, detail));
@@ -1010,6 +1032,10 @@ pub fn check_session(cap: &Capture, scn: &DebugScenario, report: &mut Report) ->
         }
 
         if model_after.io.input_requests > 0 && !has_input && !tail_input_active {
+            if resyncs > 0 {
+                stop_compare = true;
+                break;
+            }
             // The debugger and the program share one input stream; a program that reads input
             // (here: after a `move` planted an input trap) is outside the modelled sessions
             out.discarded = Some("input-trap-in-session".into());
@@ -1017,6 +1043,10 @@ pub fn check_session(cap: &Capture, scn: &DebugScenario, report: &mut Report) ->
         }
         match &outcome.after {
             After::Budget | After::Unspecified => {
+                if resyncs > 0 {
+                    stop_compare = true;
+                    break;
+                }
                 out.discarded = Some("model-budget-or-unspecified".into());
                 return out;
             }
@@ -1033,6 +1063,12 @@ pub fn check_session(cap: &Capture, scn: &DebugScenario, report: &mut Report) ->
                     _ => {}
                 }
                 let Some(p) = &next else {
+                    if resyncs > 0 && matches!(real.end, End::Fuel) {
+                        // The tick budget was sized for the reference's path, which the
+                        // session left at the earlier divergence
+                        stop_compare = true;
+                        break;
+                    }
                     // The real session did not pause again
                     let (prop, key) = diagnose_no_pause(&item.cmd, class, &real, orig, &before, reason);
                     push(
@@ -1074,6 +1110,16 @@ pub fn check_session(cap: &Capture, scn: &DebugScenario, report: &mut Report) ->
                         key,
                         format!("after `{}` at PC x{:04x}: {}", item.render(), before.vm.pc, text),
                     );
+                    let list_ok = bp_mismatch(p, &model_after).map(|b| b.0 != "list-not-sorted-unique").unwrap_or(true);
+                    if resyncs < 4 && list_ok && !has_input && !tail_input_active && model_after.io.input_requests == 0 {
+                        resyncs += 1;
+                        report.hit("probe:resynchronised_after_divergence");
+                        let mut adopted = model_after;
+                        resync(&mut adopted, p, load_mem);
+                        dbg = adopted;
+                        pause = next;
+                        continue;
+                    }
                     stop_compare = true;
                     break;
                 }
@@ -1195,7 +1241,7 @@ pub fn check_session(cap: &Capture, scn: &DebugScenario, report: &mut Report) ->
     if !stop_compare
         && out.violations.is_empty()
         && scn.transport != Transport::Terminal
-        && dbg.io.adopted_at.is_none()
+        && dbg.io.unspecified_at().is_none()
         && !matches!(real.end, End::Spin | End::Fuel | End::KeysExhausted | End::Hang | End::Flood)
         && expected_end.as_ref() == Some(&real.end)
         && real.stdout != dbg.io.output
